@@ -430,6 +430,46 @@ theorem summarize_absent (k : Kind) (h : ∀ i ∈ k.infos, i.1 ≠ "FrequencyMa
     rw [e]
     exact ih s (fun j hj => hl j (List.mem_cons_of_mem _ hj))
 
+/-- the core-type summary is 0 (none recognised), 1 (IntelAtom) or 2 (IntelCore) -/
+theorem summarize_coreType_le (k : Kind) : (summarize k).coreType ≤ 2 := by
+  rw [(summarize_spec k).2.2]
+  unfold lastCoreType
+  suffices H : ∀ (l : List Info) (c : Nat), c ≤ 2 →
+      l.foldl (fun acc i => if i.1 = "CoreType" then
+        (if i.2 = "IntelAtom" then 1 else if i.2 = "IntelCore" then 2 else acc) else acc) c ≤ 2 from H _ 0 (by omega)
+  intro l
+  induction l with
+  | nil => intro c h; exact h
+  | cons i t ih =>
+    intro c h
+    simp only [List.foldl_cons]
+    apply ih
+    repeat' split
+    all_goals omega
+
+/-- "rank first by coretype (Core >> Atom) then by frequency": as long as the frequencies stay below 2^20 MHz the value
+    `(intel_core_type << 20) + freq` orders kinds lexicographically by (core type, frequency) — nothing wraps and the
+    frequency never reaches the core-type bits -/
+theorem ctFreqKey_lex (hb : Bool) (a b : Kind) (ha : freqKey hb a < 1048576) (hb' : freqKey hb b < 1048576) :
+    ctFreqKey hb a < ctFreqKey hb b ↔
+      (summarize a).coreType < (summarize b).coreType ∨
+      ((summarize a).coreType = (summarize b).coreType ∧ freqKey hb a < freqKey hb b) := by
+  have ca := summarize_coreType_le a
+  have cb := summarize_coreType_le b
+  have e : ∀ k : Kind, ctFreqKey hb k = ((summarize k).coreType * 1048576 + freqKey hb k) % 4294967296 := by
+    intro k
+    unfold ctFreqKey freqKey
+    simp only [Nat.shiftLeft_eq]
+  rw [e a, e b, Nat.mod_eq_of_lt (by omega), Nat.mod_eq_of_lt (by omega)]
+  omega
+
+/-- beyond 2^20 the frequency does reach the core-type bits: an IntelAtom kind at 1048576 + 1500 MHz gets the value of
+    an IntelCore kind at 1500 MHz (the two are then "duplicates" and the strategy fails) -/
+theorem ctFreqKey_collision :
+    ctFreqKey true { cpuset := 1, eff := -1, forced := -1, infos := [("CoreType", "IntelAtom"), ("FrequencyBaseMHz", "1050076")] } =
+    ctFreqKey true { cpuset := 2, eff := -1, forced := -1, infos := [("CoreType", "IntelCore"), ("FrequencyBaseMHz", "1500")] } := by
+  decide
+
 /-! ### 5. histories in which HWLOC_CPUKINDS_RANKING changes between the calls -/
 
 /-- one public call together with the value of HWLOC_CPUKINDS_RANKING in force when it runs -/
